@@ -1428,30 +1428,32 @@ func integerEqualsReal(i Integer, r Real) bool {
 // procedures which have been visited already: procedures can contain
 // themselves, and can be shared between many other procedures.
 func (intp *Interpreter) bindProc(proc Procedure, seen map[*Object]bool) {
-	if len(proc) == 0 {
-		return
-	}
-	if seen[&proc[0]] {
-		return
-	}
-	seen[&proc[0]] = true
+	// Procedures can be nested arbitrarily deep (a loop with put builds
+	// millions of levels) and can contain themselves, so a work list is used
+	// instead of recursion.
+	todo := []Procedure{proc}
+	for len(todo) > 0 {
+		proc := todo[len(todo)-1]
+		todo = todo[:len(todo)-1]
+		if len(proc) == 0 || seen[&proc[0]] {
+			continue
+		}
+		seen[&proc[0]] = true
 
-	for i, elem := range proc {
-		switch obj := elem.(type) {
-		case Operator:
-			val, err := intp.load(obj)
-			if err != nil {
-				continue
+		for i, elem := range proc {
+			switch obj := elem.(type) {
+			case Operator:
+				val, err := intp.load(obj)
+				if err != nil {
+					continue
+				}
+				_, ok := val.(builtin)
+				if ok {
+					proc[i] = val
+				}
+			case Procedure:
+				todo = append(todo, obj)
 			}
-			_, ok := val.(builtin)
-			if ok {
-				proc[i] = val
-			}
-		case Procedure:
-			// be careful to avoid infinite loops
-			proc[i] = nil
-			intp.bindProc(obj, seen)
-			proc[i] = obj
 		}
 	}
 }
